@@ -277,6 +277,21 @@ fn check_prc<const P: i64>() {
         }
     } }
 }
+// exact rank over the rationals: fraction-free elimination on i128 (entries are tiny)
+fn exact_rank(m: &Vec<Vec<i64>>) -> usize {
+    let mut a: Vec<Vec<i128>> = m.iter().map(|r| r.iter().map(|&x| x as i128).collect()).collect();
+    let (rows, cols) = (a.len(), if a.is_empty() { 0 } else { a[0].len() });
+    let mut rank = 0;
+    for c in 0..cols {
+        if rank >= rows { break; }
+        if let Some(p) = (rank..rows).find(|&r| a[r][c] != 0) {
+            a.swap(p, rank);
+            for r in (rank + 1)..rows { if a[r][c] != 0 { let (x, y) = (a[rank][c], a[r][c]); for k in 0..cols { a[r][k] = a[r][k] * x - a[rank][k] * y; } } }
+            rank += 1;
+        }
+    }
+    rank
+}
 fn check_c18() {
     check_prc::<2>(); check_prc::<3>(); check_prc::<61>(); check_prc::<3037000493>();
     // shapes: rank never panics and is <= min(rows, cols)
@@ -289,7 +304,8 @@ fn check_c18() {
             m.rank()
         });
         match r {
-            Ok(k) => if k > rows.min(cols) { falsified("VecMatrix::rank", format!("{:?}", data), format!("rank {} > min(rows, cols)", k)); },
+            Ok(k) => { if k > rows.min(cols) { falsified("VecMatrix::rank / RowEchelonVecMatrix::new", format!("{:?}", data), format!("rank {} > min(rows, cols)", k)); }
+                       let exact = exact_rank(&data); if k != exact { falsified("VecMatrix::rank / RowEchelonVecMatrix::new", format!("{:?}", data), format!("rank {} but the exact rank over the rationals is {}", k, exact)); } },
             Err(e) => falsified("RowEchelonVecMatrix::new", format!("{:?}", data), format!("panic {}", e)),
         }
     } } }
@@ -442,6 +458,12 @@ fn check_c11() {
         (1, vec![w(&[1, 1, 1, 1, 1])], vec![], 5),
         (1, vec![w(&[1, 1]), w(&[])], vec![w(&[])], 2),
         (2, vec![w(&[1, 1, 1]), w(&[2, 2]), w(&[1, 2, 1, 2])], vec![w(&[2])], 3),
+        (1, vec![w(&[1, 1, 1, 1, 1, 1, 1])], vec![w(&[1, 1])], 1),                      // deductions must be followed up (D11)
+        (2, vec![w(&[1, 1, 1, 1, 1, 1]), w(&[2, -1, -1])], vec![], 6),                  // used to hit the row limit (D12)
+        (2, vec![w(&[1, 1, 1]), w(&[2, 2]), w(&[1, 2, 1, 2, 1, 2, 1, 2, 1, 2])], vec![], 60),          // A5
+        (2, vec![w(&[1, 1, 1]), w(&[2, 2]), w(&[1, 2, 1, 2, 1, 2, 1, 2, 1, 2])], vec![w(&[1])], 20),
+        (2, vec![w(&[1, 1, 1]), w(&[2, 2, 2]), w(&[1, 2, -1, -2])], vec![w(&[-1, 2])], 3),             // Z3 x Z3, H = <a^-1 b>
+        (3, vec![w(&[1, 1]), w(&[2, 2]), w(&[3, 3]), w(&[1, 2, 1, 2, 1, 2]), w(&[2, 3, 2, 3, 2, 3]), w(&[1, 3, 1, 3])], vec![w(&[1]), w(&[2])], 4),   // S4 / S3
     ];
     for (n, rels, sub, index) in groups {
         let txt = format!("gens={} rels={:?} sub={:?}", n, rels.iter().map(letters).collect::<Vec<_>>(), sub.iter().map(letters).collect::<Vec<_>>());
@@ -449,10 +471,50 @@ fn check_c11() {
         if t.len() != index { falsified("coset_table", txt.clone(), format!("{} rows, index is {}", t.len(), index)); }
         for r in 0..t.len() { for g in t.all_gens() { match t.get(r, g) { Some(k) => if t.get(k, -g) != Some(r) { falsified("coset_table", txt.clone(), format!("row {} gen {}: inverse does not return", r, g)); }, None => falsified("coset_table", txt.clone(), format!("row {} gen {} undefined", r, g)) } } }
         for s in &sub { if trace(&t, s) != Some(0) { falsified("coset_table", txt.clone(), format!("subgroup generator {:?} does not fix row 0", letters(s))); } }
+        for r in 0..t.len() { for rel in &rels { let mut x = Some(r); for &g in rel.iter() { x = x.and_then(|y| t.get(y, g)); } if x != Some(r) { falsified("coset_table", txt.clone(), format!("relator {:?} traced from row {} ends in {:?}", letters(rel), r, x)); break; } } }
+        { let mut seen = vec![false; t.len()]; let mut st = vec![0usize]; if t.len() > 0 { seen[0] = true; } while let Some(r) = st.pop() { for g in t.all_gens() { if let Some(k) = t.get(r, g) { if k < seen.len() && !seen[k] { seen[k] = true; st.push(k); } } } }
+          if seen.iter().any(|b| !b) { falsified("coset_table", txt.clone(), "the action is not transitive".into()); } }
         match quiet(|| coset_representative(&t)) {
             Err(e) => falsified("coset_representative", txt, format!("panic {}", e)),
             Ok(reps) => { if reps.len() != t.len() { falsified("coset_representative", txt.clone(), format!("{} representatives for {} rows", reps.len(), t.len())); }
                 for (k, wd) in &reps { if trace(&t, wd) != Some(*k) { falsified("coset_representative", txt.clone(), format!("row {} got word {:?} which traces to {:?}", k, letters(wd), trace(&t, wd))); } } }
+        }
+    }
+}
+
+// random subgroups of the Coxeter groups S4 = [3,3] and S5 = [3,3,3]; the index is computed independently from the faithful
+// permutation representation s_i = (i i+1) by brute-force closure
+fn perm_mul(a: &Vec<usize>, b: &Vec<usize>) -> Vec<usize> { (0..a.len()).map(|i| b[a[i]]).collect() }
+fn check_c11_random() {
+    let w = |v: &[isize]| FreeWord::from(v.to_vec());
+    let mut rng = Rng(4242);
+    for n in [4usize, 5] {
+        let ng = n - 1;
+        let mut rels = vec![];
+        for i in 1..=ng as isize { rels.push(w(&[i, i])); }
+        for i in 1..=ng as isize { for j in (i + 1)..=ng as isize { if j == i + 1 { rels.push(w(&[i, j, i, j, i, j])); } else { rels.push(w(&[i, j, i, j])); } } }
+        let gen_perm = |g: isize| -> Vec<usize> { let k = (g.abs() - 1) as usize; let mut p: Vec<usize> = (0..n).collect(); p.swap(k, k + 1); p };
+        let order: usize = (1..=n).product();
+        for _ in 0..(if n == 4 { 150 } else { 60 }) {
+            let nsub = 1 + rng.below(3);
+            let mut sub = vec![];
+            for _ in 0..nsub { let len = 1 + rng.below(4); let v: Vec<isize> = (0..len).map(|_| { let g = 1 + rng.below(ng) as isize; if rng.below(2) == 0 { g } else { -g } }).collect(); sub.push(FreeWord::from(v)); }
+            // |H| by closure
+            let id: Vec<usize> = (0..n).collect();
+            let hg: Vec<Vec<usize>> = sub.iter().map(|s| s.iter().fold(id.clone(), |acc, &g| perm_mul(&acc, &gen_perm(g)))).collect();
+            let mut elems: BTreeSet<Vec<usize>> = BTreeSet::new(); elems.insert(id.clone());
+            let mut stack = vec![id.clone()];
+            while let Some(x) = stack.pop() { for h in &hg { let y = perm_mul(&x, h); if elems.insert(y.clone()) { stack.push(y); } } }
+            let index = order / elems.len();
+            let txt = format!("S{} (Coxeter presentation) sub={:?}", n, sub.iter().map(letters).collect::<Vec<_>>());
+            match quiet(|| coset_table(ng, &rels, &sub)) {
+                Err(e) => falsified("coset_table", txt, format!("panic {}", e)),
+                Ok(t) => {
+                    if t.len() != index { falsified("coset_table", txt.clone(), format!("{} rows, index is {}", t.len(), index)); }
+                    for s in &sub { if trace(&t, s) != Some(0) { falsified("coset_table", txt.clone(), format!("subgroup generator {:?} does not fix row 0", letters(s))); } }
+                    'rows: for r in 0..t.len() { for rel in &rels { let mut x = Some(r); for &g in rel.iter() { x = x.and_then(|y| t.get(y, g)); } if x != Some(r) { falsified("coset_table", txt.clone(), format!("relator {:?} traced from row {} ends in {:?}", letters(rel), r, x)); break 'rows; } } }
+                }
+            }
         }
     }
 }
@@ -462,7 +524,7 @@ fn main() {
     std::panic::set_hook(Box::new(|_| {}));
     match prop.as_str() {
         "C01" => check_c01(), "C02" => check_c02(), "C04" => check_c04(), "C05" => check_c05(),
-        "C10" => check_c10(), "C11" => check_c11(), "C18" => check_c18(), "C20" => { check_c20(); check_c20_unions(); },
+        "C10" => check_c10(), "C11" => { check_c11(); check_c11_random(); }, "C18" => check_c18(), "C20" => { check_c20(); check_c20_unions(); },
         _ => { eprintln!("unknown property"); std::process::exit(2); }
     }
     unsafe { println!("falsifier finished: {} discrepancies", COUNT); }
